@@ -93,6 +93,7 @@ def render_module(mod, ent, cache):
                 cache[rel] = rust2coq.parse_file(_src(rel), rel)
             header, fn = rust2coq.find_fn(cache[rel], spec["impl"], spec["fn"], "%s (%s)" % (spec["name"], rel))
             tr = rust2coq.Translator(r2c_table, spec)
+            tr.items = cache[rel]                    # the items of the file: private helper methods of the same impl are inlined
             gparams, term, rty = tr.function(fn, header)
         except TieBroken as e:
             # the definition is NOT emitted: the lemma src_<name> of Proofs/SrcEq<Module>.v no longer compiles, and the
